@@ -1,6 +1,8 @@
 """Generators for rule ASTs, rule texts (rendered with varying layout) and hit layouts."""
 from __future__ import annotations
 
+import zlib
+
 from vf.models import rules_ref as R
 
 PROFILES = ["a", "b", "c", "d", "e", "f-1", "g_2"]
@@ -113,7 +115,9 @@ def jitter_layout(text: str, rng) -> str:
         if r < 0.1:
             out.append("\n")
         elif r < 0.15:
-            out.append("\t")
+            # every character of string.whitespace separates symbols, DOS and old Mac line ends and page breaks too;
+            # which one is taken from the token so that no further draw is made
+            out.append(("\t", "\r\n", "\x0c", "\x0b", "\r")[zlib.crc32(tok.encode()) % 5])
         elif r < 0.2:
             out.append(" # a comment with RULE and ( tokens " + rng.choice(["x", "CONDITIONS", "a and"]) + "\n")
         elif r < 0.25:
